@@ -626,6 +626,25 @@ def check_model(r, tag, desc, vals, cls, classes, salt=0, do_insert=True):
                 r.bad(f'C08/{tag}/name-edited-in-place/wire-differs', f'field {fd["n"]}: announced {n3}, {w3.hex()[:80]} expected {exp3.hex()[:80]}')
                 return
             break
+    # ---- a map filled entry by entry (through the attribute), starting unassigned or from an assigned empty dict -------------------
+    for fd in desc['fields']:
+        v = vals.get(fd['n'])
+        if fd['k'] == 'map' and isinstance(v, list) and v and salt % 2 == 1:
+            for start in ('unassigned', 'empty-dict'):
+                try:
+                    o4 = mk_instance(desc, dict(vals, **{fd['n']: '__unset__'}), classes, cls)
+                    if start == 'empty-dict':
+                        setattr(o4, fd['n'], {})
+                    for kk, vv in v:
+                        getattr(o4, fd['n'])[to_py(fd['key'], kk, classes)] = to_py(fd['val'], vv, classes)
+                    w4 = bytes(o4.encode())
+                except Exception as e:
+                    r.bad(f'C08/{tag}/map-filled-entry-by-entry/raised/{type(e).__name__}/{start}', repr(e)[:200])
+                    return
+                if w4 != expected:
+                    r.bad(f'C08/{tag}/map-filled-entry-by-entry/wire-differs/{start}', f'field {fd["n"]}: {w4.hex()[:80]} expected {expected.hex()[:80]}')
+                    return
+            break
     want = {fd['n']: norm_json(fd, vals.get(fd['n'])) for fd in desc['fields']}
 
     def decode_equal(w, what):
